@@ -278,9 +278,35 @@ func init() {
 	}
 	natives["(*encoding/json.Encoder).SetIndent"] = zeroStub
 	natives["(*encoding/json.Encoder).SetEscapeHTML"] = zeroStub
-	natives["encoding/json.Marshal"] = func(m *Machine, c *frame, fn *ssa.Function, a []Value) Value {
+	// json.Marshal of a struct (or pointer to struct): a handle that json.Unmarshal
+	// into the same struct type resolves to a deep copy ("JSON is the identity on
+	// the serialised struct"); anything else is an opaque document
+	marshal := func(m *Machine, c *frame, fn *ssa.Function, a []Value) Value {
+		v, _ := a[0].(Iface)
+		if v.T != nil {
+			T, val := v.T, v.V
+			if pt, ok := T.(*types.Pointer); ok {
+				if p, ok := val.(*Value); ok && p != nil {
+					T, val = pt.Elem(), load(p)
+				}
+			}
+			if _, ok := T.Underlying().(*types.Struct); ok {
+				if m.findMethod(types.NewPointer(T), "MarshalJSON") == nil {
+					m.protoMsgs = append(m.protoMsgs, protoMsg{T: T, V: copyValDeep(val)})
+					id := uint64(len(m.protoMsgs))
+					out := make([]Value, 9)
+					out[0] = sym.BVConst(8, 0xA8)
+					for i := 0; i < 8; i++ {
+						out[1+i] = sym.BVConst(8, (id>>(8*uint(7-i)))&0xff)
+					}
+					return Tuple{out, Iface{}}
+				}
+			}
+		}
 		return Tuple{bytesOf("<json document>"), Iface{}}
 	}
+	natives["encoding/json.Marshal"] = marshal
+	natives["encoding/json.MarshalIndent"] = marshal
 
 	// go-path
 	natives["github.com/ipfs/go-path.ParsePath"] = func(m *Machine, c *frame, fn *ssa.Function, a []Value) Value {
